@@ -23,7 +23,7 @@ pub fn gen_work_req(r: &mut Rng, nonce: u64, allow_panic: bool) -> WorkReq {
     let step_ms = *r.pick(&[0u64, 1, 3, 10, 50, 200, 1000, 3000]);
     let resp_bytes = *r.pick(&[0usize, 0, 10, 300, 5000, 70000]);
     let body = if r.chance(1, 3) {
-        let n = *r.pick(&[0usize, 1, 17, 300, 3000]);
+        let n = *r.pick(&[0usize, 1, 17, 300, 3000, 3000, 20_000]);
         Some(r.bytes(n))
     } else {
         None
@@ -500,6 +500,28 @@ impl Scenario for C16 {
     }
 }
 
+/// The bytes the client wrote for request `j` of a raw connection.
+fn request_bytes(cp: &ConnPlan, j: usize) -> Vec<u8> {
+    let mut buf = Vec::new();
+    for s in &cp.steps {
+        if let Step::Send { data, completes } = s {
+            buf.extend_from_slice(&data.0);
+            match completes {
+                Some(k) if *k == j => return buf,
+                Some(_) => buf.clear(),
+                None => {}
+            }
+        }
+    }
+    buf
+}
+
+/// The request goes to an endpoint without a body parameter: its body stays
+/// unread (known finding `c16.unread_body_disconnect_not_noticed`).
+fn unread_body(rq: &ReqPlan) -> bool {
+    matches!(&rq.expect, Expect::Work { op, .. } if *op == crate::api::work::OP_WORK_POST)
+}
+
 /// `probes`: when given, reach-probe names are pushed for this run.
 pub fn check_c16(
     plan: &Plan,
@@ -740,9 +762,16 @@ pub fn check_c16(
                                 .map(|t| t.2 == Ev::HandlerDropped && t.1 <= t0 + 100)
                                 .unwrap_or(false);
                             let late_step = h.steps.iter().any(|s| s.1 > t0 + 100);
+                            if unread_body(rq) {
+                                probe("cancel_rule_applied_to_unread_body");
+                            }
                             if !dropped_in_time || late_step {
                                 v.push(Violation {
-                                    rule: "c16.cancel_cancels".into(),
+                                    rule: if unread_body(rq) {
+                                        "c16.unread_body_disconnect_not_noticed".into()
+                                    } else {
+                                        "c16.cancel_cancels".into()
+                                    },
                                     detail: format!(
                                         "cancel mode: client of nonce {} disconnected (reached server at {} ms, handler entered at {} ms with {} ms of work left) but handler ended {:?}; late_step={}",
                                         rq.nonce, dt, et, remaining, term, late_step
@@ -781,15 +810,30 @@ pub fn check_c16(
             }
         }
         if disrupted_at.is_none() && !has_panic {
+            // hyper closes a connection after answering a request whose body
+            // was left unread (it cannot find the next request): what the
+            // client sent behind such a request is not owed an answer, and
+            // the answer itself can be cut short by hyper's shutdown without
+            // flush (the known finding of C10/C11/C18).
+            let first_unread = cp.reqs.iter().position(unread_body);
+            let cut = truncated_at(obs);
             if let Some(e) = &obs.parse_err {
-                v.push(Violation {
-                    rule: "c16.bystander".into(),
-                    detail: format!("conn {ci}: response stream does not parse: {:?}", e),
-                });
+                match (cut, first_unread) {
+                    (Some(k), Some(u)) if k >= u => v.push(Violation {
+                        rule: "c16.response_truncated_on_close".into(),
+                        detail: format!("conn {ci}: response {k} was cut short when the server closed the connection after a request whose body it had left unread: {:?}", e),
+                    }),
+                    _ => v.push(Violation {
+                        rule: "c16.bystander".into(),
+                        detail: format!("conn {ci}: response stream does not parse: {:?}", e),
+                    }),
+                }
             }
             for (k, rq) in cp.reqs.iter().enumerate() {
                 match &obs.by_req[k] {
                     None if !owed_answer(out, cp, obs, k) => probe("server_closed_between_requests"),
+                    None if first_unread.map(|u| k > u).unwrap_or(false) => probe("sent_behind_unread_body"),
+                    None if cut == Some(k) && first_unread.map(|u| k >= u).unwrap_or(false) => {}
                     None => v.push(Violation {
                         rule: "c16.bystander".into(),
                         detail: format!(
